@@ -20,7 +20,7 @@ TMO = 420            # one ego process (the machine is shared and often saturate
 # ---------------------------------------------------------------- projection: tokens -> text
 SYM_VAL = {"SL2": "//", "BC": "/*", "CB": "*/", "DQ": '"', "BS": "\\", "TAB": "\t"}
 SYM_DQ = {"SL2": "//", "BC": "/*", "CB": "*/", "DQ": '\\"', "BS": "\\\\", "TAB": "\\t"}
-TAKEN = {"std": "SO", "wide": "SOLKT", "one": "", "spacey": "SO"}
+TAKEN = {"std": "SO", "wide": "SOLKTA", "one": "", "spacey": "SO"}
 INDENT = {"std": "\t", "wide": "  ", "one": "\t", "spacey": "    "}
 ORDER = {"bc": 0, "lc": 1, "ol": 2, "ob": 3, "on": 4}
 
@@ -181,19 +181,27 @@ class Unit:
 
 
 def file_text(units, shape, prelude):
+    """the text of a source file holding the units, and for each unit the lines (1-based, inclusive) of its function"""
+    spans = {}
+
+    def add(s, u, text):
+        first = s.count("\n") + 1
+        s += text
+        spans[u.uid] = (first, s.count("\n"))
+        return s
     if shape == "prog":
         s = "package main\n\nimport \"fmt\"\n\n" + prelude + "\n"
         for u in units:
-            s += u.text + "\n"
+            s = add(s, u, u.text) + "\n"
         s += "func main() {\n"
         for u in units:
             s += "\tfmt.Println(\"== %s\")\n\t%s" % (u.uid, u.inv)
         s += "\tfmt.Println(\"== end\")\n}\n"
-        return s
+        return s, spans
     s = "@test \"prelude\"\n" + prelude + "{\n\tfmt.Println(\"p\")\n}\n\n"
     for u in units:
-        s += "@test \"%s\"\n%s{\n\t%s}\n\n" % (u.uid, u.text, u.inv)
-    return s
+        s = add(s, u, "@test \"%s\"\n%s{\n\t%s}\n" % (u.uid, u.text, u.inv)) + "\n"
+    return s, spans
 
 
 _LINE = [re.compile(r"\bat line \d+(:\d+)?,?\s*"), re.compile(r"\(line \d+(:\d+)?\)"), re.compile(r"\bline \d+(:\d+)?\b"),
@@ -267,8 +275,9 @@ def observe_frag(rc, so, se, uids):
 
 
 class SrcFile:
-    def __init__(self, name, units, shape, text):
-        self.name, self.units, self.shape, self.text = name, units, shape, text
+    def __init__(self, name, units, shape, prelude):
+        self.name, self.units, self.shape = name, units, shape
+        self.text, self.spans = file_text(units, shape, prelude)
         self.fmt_ok = self.idem = None
         self.fmt_msg = ""
         self.ftext = ""
@@ -298,6 +307,7 @@ def process_files(files, sd, ego, env, tag):
             raise vf.NoVerdict("ego fmt did not finish within %d s" % TMO)
         f.fmt_ok = rc == 0 and so.strip() != ""
         f.fmt_msg = norm_msg(se + so if rc != 0 else "")
+        f.fmt_raw_msg = se + so if rc != 0 else ""
         f.ftext = so if rc == 0 else ""
         uids = [u.uid for u in f.units]
         f.oobs = (observe_prog if f.shape == "prog" else observe_frag)(*res[2 * n + 1], uids)
@@ -337,21 +347,53 @@ def unit_record(f, u):
             "cin": cin, "cout": cout}
 
 
-def clean(f):
-    """a packed file whose every unit can be read off it: everything ran and nothing differs (only decides whether the
-    units are observed again one by one; the verdict is the contract's)"""
-    if not (f.fmt_ok and f.idem):
-        return False
+def unit_at(f, line):
+    for u in f.units:
+        a, b = f.spans[u.uid]
+        if a <= line <= b:
+            return u
+    return None
+
+
+def suspects(f):
+    """the units of a packed file that cannot be read off it and have to be observed alone ([] = all units can be read off
+    it).  Only decides how the observations are obtained; the verdict is the contract's."""
+    if len(f.units) == 1:
+        return []
+    rc, so, se = f.orig_raw
+    first = [u for u in f.units if f.oobs[u.uid]["status"] != "ok"]
+    if first and f.oobs[first[0].uid]["status"] == "compile-error":
+        m = re.search(r"line (\d+)", se + so)
+        u = unit_at(f, int(m.group(1))) if m else None
+        return [u] if u else list(f.units)
+    if not f.fmt_ok:
+        m = re.search(r"line (\d+)", f.fmt_raw_msg)
+        u = unit_at(f, int(m.group(1))) if m else None
+        return [u] if u else list(f.units)
+    out = []
     for u in f.units:
         r = unit_record(f, u)
-        if r["orig"]["status"] != "ok" or r["orig"]["out"] != r["exp"]["out"] or r["fmtd"] != r["orig"]:
-            return False
+        bad = r["orig"]["status"] != "ok" or r["orig"]["out"] != r["exp"]["out"] or r["fmtd"] != r["orig"]
         have = list(r["cout"])
         for c in r["cin"]:
-            if c not in have:
-                return False
-            have.remove(c)
-    return True
+            if c in have:
+                have.remove(c)
+            else:
+                bad = True
+        if bad:
+            out.append(u)
+    if not f.idem and not out:
+        a, b = f.ftext.split("\n"), f.ftext2.split("\n")
+        k = next((i for i in range(min(len(a), len(b))) if a[i] != b[i]), min(len(a), len(b)))
+        names = {u.case["id"]: u for u in f.units}
+        hit = None
+        for i in range(min(k, len(a) - 1), -1, -1):
+            m = re.search(r"\b(f_\w+)", a[i])
+            if m and m.group(1) in names and ("func " in a[i] or "@test" in a[i]):
+                hit = names[m.group(1)]
+                break
+        out = [hit] if hit else list(f.units)
+    return out
 
 
 # ---------------------------------------------------------------- Go cross-check of the specification
@@ -555,27 +597,53 @@ def run():
         for u in units:
             vi = int(u.uid.rsplit(".v", 1)[1])
             groups.setdefault((u.v["shape"], vi), []).append(u)
-        files = []
-        for (shape, vi), us in sorted(groups.items()):
-            for k in range(0, len(us), PACK):
-                part = us[k:k + PACK]
-                files.append(SrcFile("p_%s_%d_%d" % (shape, vi, k // PACK), part, shape, file_text(part, shape, prelude)))
-        nproc = process_files(files, sd, ego, env, "packed")
-        recs, again = [], []
-        for f in files:
-            if clean(f):
-                recs += [unit_record(f, u) for u in f.units]
-            else:
-                again += [SrcFile("s_%s" % re.sub(r"\W", "_", u.uid), [u], f.shape, file_text([u], f.shape, prelude)) for u in f.units]
-        chk.cov["packed_files"] = len(files)
-        chk.cov["units_observed_alone"] = len(again)
-        if again:
-            nproc += process_files(again, sd, ego, env, "single")
-            srcs = {}
-            for f in again:
-                rec = unit_record(f, f.units[0])
-                rec["_src"], rec["_fmt"], rec["_shape"] = f.text, f.ftext, f.shape
-                recs.append(rec)
+        pending = [(shape, vi, us) for (shape, vi), us in sorted(groups.items())]
+        recs, nproc, rounds, alone = [], 0, 0, 0
+        while pending:
+            rounds += 1
+            files = []
+            for shape, vi, us in pending:
+                pack = PACK if rounds < 4 else 1
+                for k in range(0, len(us), pack):
+                    files.append(SrcFile("r%d_%s_%d_%d" % (rounds, shape, vi, k // pack), us[k:k + pack], shape, prelude))
+            vf.log("round %d: %d files, %d units" % (rounds, len(files), sum(len(f.units) for f in files)))
+            nproc += process_files(files, sd, ego, env, "round%d" % rounds)
+            nxt = {}
+            for f in files:
+                sus = suspects(f)
+                if not sus:
+                    for u in f.units:
+                        rec = unit_record(f, u)
+                        if len(f.units) == 1:
+                            rec["_src"], rec["_fmt"], rec["_shape"] = f.text, f.ftext, f.shape
+                        recs.append(rec)
+                    continue
+                # the suspects are observed alone, the others packed again without them
+                ids = {u.uid for u in sus}
+                for u in sus:
+                    alone += 1
+                    nxt.setdefault((f.shape, "a", u.uid), []).append(u)
+                rest = [u for u in f.units if u.uid not in ids]
+                if rest:
+                    nxt.setdefault((f.shape, "p", f.name), []).extend(rest)
+            # single suspects -> files of one unit; the rest of each file stays together
+            pending = []
+            singles = [us[0] for (sh, kind, _), us in sorted(nxt.items()) if kind == "a"]
+            if singles:
+                vf.log("round %d: %d units observed alone" % (rounds, len(singles)))
+                files1 = [SrcFile("a%d_%d" % (rounds, n), [u], u.v["shape"], prelude) for n, u in enumerate(singles)]
+                nproc += process_files(files1, sd, ego, env, "alone%d" % rounds)
+                for f in files1:
+                    rec = unit_record(f, f.units[0])
+                    rec["_src"], rec["_fmt"], rec["_shape"] = f.text, f.ftext, f.shape
+                    recs.append(rec)
+            for (sh, kind, name), us in sorted(nxt.items()):
+                if kind == "p":
+                    pending.append((sh, 0, us))
+            if rounds > 8:
+                raise vf.NoVerdict("packed files do not settle")
+        chk.cov["rounds"] = rounds
+        chk.cov["units_observed_alone"] = alone
         # 5. the repository's own files
         crecs, n2 = corpus_stage(chk, sd, ego, env, rng, thorough)
         nproc += n2
